@@ -230,6 +230,10 @@ func (c *DefaultCrawler) Run(ctx context.Context, startingPeers []*peer.AddrInfo
 		}
 		peerAddrs.addPeerAddrsNoLock(ai.ID, extendAddrs)
 
+		if _, ok := peersSeen[ai.ID]; ok {
+			// a duplicate starting peer: already scheduled, query it only once
+			continue
+		}
 		toDial = append(toDial, ai)
 		peersSeen[ai.ID] = struct{}{}
 	}
